@@ -19,4 +19,7 @@ MUTANTS = [
     M('C12', 'literals: 0b parsed as hex', PARSER, "            elif n[1] in 'bB':\n                t.value = int(n, 2)", "            elif n[1] in 'bB':\n                t.value = int(n, 16)", 'C12.LITERALS'),
     M('C12', 'EQ table: comparison spelled with int()', EXPR, "    '<': lambda a, b: 1 if a < b else 0,", "    '<': lambda x, y: int(x < y),", None),
     M('C12', 'EQ precedence: token order inside a level', PARSER, "        ('nonassoc', '<', '>', LE, GE),", "        ('nonassoc', LE, GE, '>', '<'),", None),
+    M('C12', 'long decimal literals through plain int() again (F16 reverted)', 'flipjump/assembler/fj_parser.py', "                t.value = decimal_to_int(n)", "                t.value = int(n)", 'C12.LITERALS'),
+    M('C12', 'decimal chunk fallback drops the scaling by the chunk length', 'flipjump/assembler/fj_parser.py', "value = value * 10 ** len(chunk) + int(chunk)", "value = value * 10 ** 512 + int(chunk)", 'C12.LITERALS'),
+    M('C12', 'EQ decimal chunk fallback with the sum commuted', 'flipjump/assembler/fj_parser.py', "value = value * 10 ** len(chunk) + int(chunk)", "value = int(chunk) + value * 10 ** len(chunk)", None),
 ]
